@@ -842,9 +842,18 @@ func init() {
 			}
 			k++
 			ex.ghost["clock"] = ex.intTerm(k)
+			step := int64(1000)
+			if ex.cfg.ClockStepMS != nil {
+				step = *ex.cfg.ClockStepMS
+			}
+			ms := k*step + ex.cfg.ClockOffsetMS
+			if step == 0 {
+				ms = ex.cfg.ClockOffsetMS
+			}
+			// time.Time without monotonic reading: wall = nanoseconds within the second, ext = seconds since year 1
 			t := ex.newAgg(3)
-			t.E[0] = ex.ts.BVConst(64, 0)
-			t.E[1] = ex.intTerm(1700000000 + k + 62135596800)
+			t.E[0] = ex.ts.BVConst(64, uint64((ms%1000)*1000000))
+			t.E[1] = ex.intTerm(1700000000 + ms/1000 + 62135596800)
 			t.E[2] = Ptr{}
 			return t, true
 		}
